@@ -674,6 +674,204 @@ func codeNames(m map[uint32]bool) []uint32 {
 	return out
 }
 
+// ---- header blocks as a sequence on one Framer (interleaving and decoder state)
+
+type c19Block struct {
+	Stream uint32
+	Fields [][2]string
+	Cuts   []int  // block split over HEADERS + CONTINUATION frames
+	Bad    string // "", or why the block is malformed at the field level (stream error PROTOCOL_ERROR)
+	Middle *Frame // a frame put between the first and the second frame of the block (nil: none)
+	MidOK  bool   // the middle frame is a legal CONTINUATION of this block
+}
+
+// runC19Blocks: header blocks written with the independent codec are read by one Framer,
+// with or without ReadMetaHeaders.  A frame that is not this block's CONTINUATION inside an
+// open header block is a connection error PROTOCOL_ERROR whatever its type (RFC 7540 6.2,
+// 6.10; extension frames included, 5.5); a block with a malformed field is a stream error
+// and leaves the decoder usable: the blocks that follow are decoded in full.
+func runC19Blocks(blocks []c19Block, meta bool, cuts []int) (vs []Violation, stats map[string]int) {
+	stats = map[string]int{}
+	bad := func(class, format string, args ...any) {
+		vs = append(vs, Violation{class, class, fmt.Sprintf(format, args...)})
+	}
+	enc := NewHEnc()
+	enc.enc.SetMaxDynamicTableSize(0)
+	var wire []byte
+	type exp struct {
+		frames int // wire frames of the block
+		b      c19Block
+	}
+	var exps []exp
+	for _, b := range blocks {
+		fs := HeadersFrames(b.Stream, enc.Block(b.Fields), true, nil, -1, b.Cuts)
+		if b.Middle != nil {
+			if len(fs) < 2 {
+				// make room: one octet moves into a CONTINUATION frame
+				fs = HeadersFrames(b.Stream, enc.Block(b.Fields), true, nil, -1, []int{1})
+			}
+			rest := append([]Frame{*b.Middle}, fs[1:]...)
+			fs = append(fs[:1:1], rest...)
+		}
+		wire = append(wire, FramesBytes(fs...)...)
+		exps = append(exps, exp{len(fs), b})
+	}
+	rd := &faultyReader{data: wire, cuts: cuts, failAt: -1}
+	fr := http2.NewFramer(io.Discard, rd)
+	if meta {
+		fr.ReadMetaHeaders = hpack.NewDecoder(4096, nil)
+	}
+	defer func() {
+		if e := recover(); e != nil {
+			bad("panic", "ReadFrame panicked while reading header blocks (meta=%v): %v", meta, e)
+		}
+	}()
+	for bi, e := range exps {
+		illegalMiddle := e.b.Middle != nil && !e.b.MidOK
+		if !meta {
+			for k := 0; k < e.frames; k++ {
+				_, err := fr.ReadFrame()
+				if illegalMiddle && k == 1 {
+					if code, ok := errCodeOf(err); !ok || code != ErrProtocol {
+						bad("interleaving_accepted", "block %d: frame %s inside an open header block was not rejected with a connection error PROTOCOL_ERROR (got %v)", bi, e.b.Middle.String(), err)
+					} else {
+						stats["interleaving_rejected"]++
+					}
+					return
+				}
+				if err != nil {
+					bad("wellformed_rejected", "block %d frame %d rejected: %v", bi, k, err)
+					return
+				}
+			}
+			continue
+		}
+		got, err := fr.ReadFrame()
+		if illegalMiddle {
+			var ce http2.ConnectionError
+			if !errors.As(err, &ce) || uint32(ce) != ErrProtocol {
+				bad("interleaving_accepted", "block %d: frame %s inside an open header block was not rejected with a connection error PROTOCOL_ERROR (got %v / %v)", bi, e.b.Middle.String(), got, err)
+			} else {
+				stats["interleaving_rejected"]++
+			}
+			return
+		}
+		mh, _ := got.(*http2.MetaHeadersFrame)
+		if e.b.Bad != "" {
+			var se http2.StreamError
+			if !errors.As(err, &se) || uint32(se.Code) != ErrProtocol {
+				bad("malformed_block_accepted", "block %d (%s) was not rejected with a stream error PROTOCOL_ERROR (got %v)", bi, e.b.Bad, err)
+				return
+			}
+			stats["malformed_block_rejected"]++
+			continue
+		}
+		if err != nil || mh == nil {
+			bad("wellformed_rejected", "block %d (after %d earlier blocks) rejected: %T %v", bi, bi, got, err)
+			return
+		}
+		if len(mh.Fields) != len(e.b.Fields) {
+			bad("fields_lost", "block %d: %d of %d fields decoded (blocks before it: %v)", bi, len(mh.Fields), len(e.b.Fields), badKinds(blocks[:bi]))
+			return
+		}
+		for i, f := range mh.Fields {
+			if f.Name != e.b.Fields[i][0] || f.Value != e.b.Fields[i][1] {
+				bad("fields_differ", "block %d field %d: got %q: %q, want %q: %q", bi, i, f.Name, f.Value, e.b.Fields[i][0], e.b.Fields[i][1])
+				return
+			}
+		}
+		stats["block_decoded"]++
+		if bi > 0 {
+			stats["block_decoded_after_another"]++
+		}
+	}
+	return
+}
+
+func badKinds(bs []c19Block) []string {
+	var out []string
+	for _, b := range bs {
+		if b.Bad != "" {
+			out = append(out, b.Bad)
+		} else {
+			out = append(out, "ok")
+		}
+	}
+	return out
+}
+
+func drawC19Blocks(t *rapid.T, cuts []int) *Case {
+	n := rapid.IntRange(1, 4).Draw(t, "nblocks")
+	var blocks []c19Block
+	var descs []string
+	for i := 0; i < n; i++ {
+		b := c19Block{Stream: uint32(2*i + 1)}
+		b.Fields = [][2]string{{":method", "GET"}, {":scheme", "https"}, {":path", fmt.Sprintf("/b%d", i)}, {":authority", "blocks.verif.test"}, {"x-a", fmt.Sprintf("v%d", i)}}
+		for k := rapid.IntRange(0, 4).Draw(t, "nextra"); k > 0; k-- {
+			b.Fields = append(b.Fields, [2]string{fmt.Sprintf("x-extra-%d", k), drawToken(t, "ev", rapid.IntRange(0, 30).Draw(t, "evl"))})
+		}
+		if drawBool(t, "badblock", 35) && i < n-1 {
+			switch rapid.IntRange(0, 3).Draw(t, "badkind") {
+			case 0:
+				b.Fields = append(b.Fields, [2]string{"X-Upper", "1"})
+				b.Bad = "upper-case field name"
+			case 1:
+				b.Fields = append(b.Fields, [2]string{":path", "/late"})
+				b.Bad = "pseudo-header after a regular field"
+			case 2:
+				b.Fields = append(b.Fields, [2]string{"x-ctl", "a\x00b"})
+				b.Bad = "NUL in a field value"
+			case 3:
+				b.Fields = append([][2]string{{":bogus", "1"}}, b.Fields...)
+				b.Bad = "unknown pseudo-header"
+			}
+		}
+		if drawBool(t, "split", 60) {
+			for k := rapid.IntRange(1, 3).Draw(t, "nsplit"); k > 0; k-- {
+				b.Cuts = append(b.Cuts, rapid.IntRange(1, 40).Draw(t, "splitat"))
+			}
+			sortInts(b.Cuts)
+		}
+		if i == n-1 && drawBool(t, "middle", 60) {
+			var m Frame
+			switch rapid.IntRange(0, 6).Draw(t, "midkind") {
+			case 0, 1:
+				// an extension frame (type >= 0x0a), on this or another stream
+				m = Frame{Type: uint8(rapid.IntRange(0x0a, 0xff).Draw(t, "exttype")), Flags: uint8(rapid.IntRange(0, 255).Draw(t, "extflags")), Stream: []uint32{0, b.Stream, b.Stream + 2}[rapid.IntRange(0, 2).Draw(t, "extstream")], Payload: rapid.SliceOfN(rapid.Byte(), 0, 12).Draw(t, "extpl")}
+			case 2:
+				m = PingFrame(false, [8]byte{1})
+			case 3:
+				m = DataFrame(b.Stream, []byte("d"), false, -1)
+			case 4:
+				m = Frame{Type: FContinuation, Stream: b.Stream + 2, Payload: []byte{0x82}}
+			case 5:
+				m = WindowUpdateFrame(0, 1)
+			case 6:
+				// legal: an empty CONTINUATION of this very block
+				m = Frame{Type: FContinuation, Stream: b.Stream}
+				b.MidOK = true
+			}
+			b.Middle = &m
+		}
+		blocks = append(blocks, b)
+		d := fmt.Sprintf("block(s=%d fields=%d cuts=%v bad=%q", b.Stream, len(b.Fields), b.Cuts, b.Bad)
+		if b.Middle != nil {
+			d += " middle=" + b.Middle.String()
+		}
+		descs = append(descs, d+")")
+	}
+	meta := drawBool(t, "blocksmeta", 65)
+	c := &Case{}
+	c.Summary = fmt.Sprintf("header blocks %v meta=%v cuts %v", descs, meta, head(cuts, 6))
+	c.DirectKey = c.Summary
+	c.Direct = func(c *Case) []Violation {
+		vs, st := runC19Blocks(blocks, meta, cuts)
+		c.DirectStats = st
+		return vs
+	}
+	return c
+}
+
 func drawC19(t *rapid.T) *Case {
 	var cuts []int
 	switch rapid.IntRange(0, 3).Draw(t, "sched") {
@@ -689,12 +887,15 @@ func drawC19(t *rapid.T) *Case {
 			cuts = append(cuts, rapid.IntRange(1, 300).Draw(t, "cut"))
 		}
 	}
+	if drawBool(t, "blocks", 15) {
+		return drawC19Blocks(t, cuts)
+	}
 	if drawBool(t, "arbitrary", 40) {
 		// frames with arbitrary header fields / payloads, then raw bytes
 		n := rapid.IntRange(1, 5).Draw(t, "nframes")
 		var frames []Frame
 		for i := 0; i < n; i++ {
-			f := Frame{Type: uint8(rapid.IntRange(0, 9).Draw(t, "type")), Flags: uint8(rapid.IntRange(0, 255).Draw(t, "flags")), Stream: uint32(rapid.IntRange(0, 5).Draw(t, "sid"))}
+			f := Frame{Type: uint8(rapid.IntRange(0, 12).Draw(t, "type")), Flags: uint8(rapid.IntRange(0, 255).Draw(t, "flags")), Stream: uint32(rapid.IntRange(0, 5).Draw(t, "sid"))}
 			if drawBool(t, "reserved", 20) {
 				f.Stream |= 1 << 31
 			}
